@@ -54,7 +54,7 @@ def run(pid, tier, args):
         lf = os.path.join(wd, "static.txt")
         open(lf, "w").write("\n".join(l for l in res.lines if l.startswith(("SYMS|", "JSON|"))) + "\n")
         ndocs = 0
-        for maker in (None, "json-def", "json-rules"):
+        for maker in (None, "json-def", "json-rules", "json-source"):
             out = vlib.vh(vhbin, ["lex-static", rawpath, lf] + ([maker] if maker else []))
             for line in out.splitlines():
                 p = line.split("\t")
@@ -75,8 +75,19 @@ def run(pid, tier, args):
         v.validated(ndocs)
         # streams after the round trip
         maxin = 3 if tier == "quick" else 4
-        for maker in ("json-def", "json-rules"):
+        # (the original definition on the same runs: the round-tripped definition must lex like the ORIGINAL, so a run where only
+        # the original departs from the specification is a difference between the two as well)
+        _r0, _e0, mism0, _d0, _n0 = L.mc_and_replay(wd, vhbin, rawpath, maxin, 0, maker=None)
+        orig_dev = {(m["case"], m["input"]): m for m in mism0}
+        for maker in ("json-def", "json-rules", "json-source"):
             res, exp, mism, done, nodef = L.mc_and_replay(wd, vhbin, rawpath, maxin, 0, maker=maker)
+            rt_dev = {(m["case"], m["input"]) for m in mism}
+            seen0 = set()
+            for k_, m in orig_dev.items():
+                if k_ not in rt_dev and k_[0] not in seen0 and k_[0] not in nodef:
+                    seen0.add(k_[0])
+                    v.violation("after %s round trip, rule map %s on %r lexes as %s but the original definition gives %s" % (maker, m["case"], m["input"], m["spec"], m["real"]),
+                                {"property": pid, "kind": "lexrun-vs-original", "maker": maker, "alpha": alpha, "case": byid[m["case"]], "input": m["input"], "original": m["real"], "round_tripped": m["spec"]})
             if res.violation:
                 raise Infra("specification invariant failed on the model: %s" % res.violation)
             v.add_tlc(res)
@@ -93,6 +104,6 @@ def run(pid, tier, args):
         v.sample({"serialised_form": [l for l in res.lines if l.startswith("JSON|")][:1] or "n/a", "rule_map": byid[accepted[-1]]})
         v.sample({"run_after_round_trip": exp[len(exp) // 2]})
         v.cov["exhaustive"] = True
-        v.notes["family"] = "%d accepted rule maps (curated + %s random + metacharacter patterns) x both marshalling routes x all inputs <= %d over %s" % (len(accepted), "seeded", maxin, "".join(alpha))
+        v.notes["family"] = "%d accepted rule maps (curated + %s random + metacharacter patterns) x three marshalling routes (the definition, its Rules(), the rule set as written with Include rules) x all inputs <= %d over %s" % (len(accepted), "seeded", maxin, "".join(alpha))
         v.assumptions += ["encoding/json is trusted for decoding the documents"]
     return v.finish()
